@@ -91,6 +91,8 @@ def gen_wait(rnd, *, timeouts=True, log_step=None, targeted_ext=True):
     if timeouts and rnd.random() < 0.5:
         tmo = rnd.choice([0.5, 1, 2, 3, 5])
     wait = {"k": "wait", "type": "Answer", "req": ({"key": "{v}"} if use_req else {}), "wid": "w-{uid}", "ask": "Ask"}
+    if use_req and rnd.random() < 0.3:
+        wait["wid"] = None  # engine-derived waiter id: distinct per requirement value
     if tmo is not None:
         wait["timeout"] = tmo
     steps = [
@@ -385,3 +387,44 @@ def gen_det(rnd, *, handler=None, waits=False):
                            {"k": "ret", "type": "EvC", "v_const": "joined"}]})
     steps.append({"name": "fin", "in": ["EvC"], "nw": 1, "acts": [{"k": "sleep", "d": rnd.choice([0, 1, 2])}, {"k": "ret", "type": "StopEvent", "result": "const"}]})
     return {"family": "det", "steps": steps, "timeout": None, "externals": [], "meta": {"m": m, "handler": handler}}
+
+
+def gen_detq(rnd):
+    """det family with queue pressure: m producers feed one single-worker step `w` (slow, failing, retried, recovered by a
+    handler that sends the lineage through `w` again), so pauses find queued entries carrying retry counts and recovery budgets.
+    Every lineage eventually succeeds, so the outcome does not depend on the order in which `w` serves its queue."""
+    m = rnd.randint(3, 4)
+    att = rnd.randint(1, 2)
+    steps = [{"name": "start", "in": ["Go"], "nw": 1, "acts": [{"k": "sleep", "d": rnd.choice([0, 0.5])}, {"k": "ret", "type": "EvA"}]}]
+    for i in range(m):
+        steps.append({"name": f"a{i}", "in": ["EvA"], "nw": 1,
+                      "acts": [{"k": "sleep", "d": rnd.choice([0, 0, 0.5])}, {"k": "ret", "type": "EvB", "pay": {"src": f"a{i}", "fails": rnd.choice([0, 1, att, att])}}]})
+    steps.append({"name": "w", "in": ["EvB"], "nw": 1, "retry": {"wait": {"k": "fixed", "w": rnd.choice([0, 0, 0.5])}, "stop": {"k": "attempt", "n": att}},
+                  "acts": [{"k": "sleep", "d": rnd.choice([0.5, 1])}, {"k": "fail", "n": {"from": "fails"}, "exc": "E1"}, {"k": "state", "op": "set", "key": "w", "val": "served"},
+                           {"k": "ret", "type": "EvC"}]})
+    steps.append({"name": "h", "handler": {"for": ["w"], "max": 2}, "in": [],
+                  "acts": [{"k": "sleep", "d": rnd.choice([0, 0.5])}, {"k": "state", "op": "set", "key": "recovered", "val": "yes"}, {"k": "ret", "type": "EvB", "pay": {"src": "h", "fails": 0}}]})
+    steps.append({"name": "join", "in": ["EvC"], "nw": 1,
+                  "acts": [{"k": "collect", "types": ["EvC"] * m}, {"k": "state", "op": "set", "key": "joined", "val": "done"}, {"k": "ret", "type": "EvD", "v_const": "joined"}]})
+    steps.append({"name": "fin", "in": ["EvD"], "nw": 1, "acts": [{"k": "ret", "type": "StopEvent", "result": "const"}]})
+    return {"family": "det", "steps": steps, "timeout": None, "externals": [], "meta": {"m": m, "handler": True, "queue_pressure": True}}
+
+
+def gen_busy(rnd):
+    """A finisher step returns the StopEvent at d1 while sibling steps do blocking work (virtual time passes, the loop gets no
+    control) across a deadline placed inside the blocked stretch: decides 'a run that finishes first is never timed out' when
+    the control loop only regains control after the deadline."""
+    d1 = rnd.choice([0.3, 0.5, 1.0])
+    b = rnd.choice([0.5, 1.0, 2.0])
+    ncr = rnd.randint(1, 3)
+    items_c = [{"lat": [d1 + rnd.choice([0, 0, 0, 0, 0.01])]} for _ in range(ncr)]  # same instant as the finisher: both callbacks run in one loop iteration
+    steps = [
+        {"name": "start", "in": ["Go"], "nw": 1, "acts": [{"k": "send", "type": "EvA", "items": [{}]}, {"k": "send", "type": "EvB", "items": items_c}, {"k": "ret", "type": None}],
+         "declare": ["EvA", "EvB"]},
+        {"name": "finisher", "in": ["EvA"], "nw": 1, "acts": [{"k": "sleep", "d": d1}, {"k": "ret", "type": "StopEvent", "result": "const"}]},
+        {"name": "cruncher", "in": ["EvB"], "nw": rnd.randint(1, 3), "acts": [{"k": "sleep", "d": {"from": "lat"}}, {"k": "burn", "d": b}, {"k": "ret", "type": None}]},
+    ]
+    if rnd.random() < 0.5:
+        steps[0]["acts"][0], steps[0]["acts"][1] = steps[0]["acts"][1], steps[0]["acts"][0]
+    return {"family": "busy", "steps": steps, "timeout": None, "externals": [], "meta": {"d1": d1, "burn": b, "deadlines": [round(d1 + b * f, 4) for f in (0.25, 0.5, 0.9)]}}
+
